@@ -186,7 +186,14 @@ def circuit_case(sim, x, rng, wl):
     rec = {'ct': sim.circ_text(x), 'problems': [], 'shared': {}}
     P = rec['problems']
     # --- pickle
-    y = pickle.loads(pickle.dumps(x))
+    rec['ct_pickled'] = 'RAISED'
+    rec['payload'] = None
+    try:
+        y = pickle.loads(pickle.dumps(x))
+    except Exception as e:
+        P.append(('circuit-pickle-raises:' + type(e).__name__,
+                  'pickle.loads(pickle.dumps(circuit)) raises ' + repr(e)))
+        return rec
     P += compare_circuits(sim, x, y, 'circuit-pickle')
     rec['ct_pickled'] = sim.circ_text(y)
     pt, err = payload_text(sim, x)
@@ -209,7 +216,14 @@ def circuit_case(sim, x, rng, wl):
         if dc.params is op.params and len(op.params):
             P.append(('operation-deepcopy-alias', 'params list shared'))
     # --- copy
-    z = x.copy()
+    try:
+        z = x.copy()
+        wtest = Circuit(1)
+        wtest.become(x)
+    except Exception as e:
+        P.append(('circuit-copy-raises:' + type(e).__name__,
+                  'copy()/become() raises ' + repr(e)))
+        return rec
     P += compare_circuits(sim, x, z, 'circuit-copy')
     sh = shared_mutables(x, z, wl)
     if sh:
@@ -253,19 +267,43 @@ def circuit_case(sim, x, rng, wl):
     return rec
 
 
+def canon_groups(txt: str):
+    """payload groups up to the order inside a group (any iteration that
+    lists a cycle's operations in some order is covered by
+    C16_reduce_rebuild_iteration)"""
+    return [sorted(g.split('+')) for g in txt.split('/')]
+
+
 def count_blocks(ct: str) -> int:
     body = ct.split(':', 1)[1]
     return sum(1 for cy in body.split('/') for t in cy.split('+')
                if t and int(t.split(';')[0]) >= 1000)
 
 
+class CaseTimeout(BaseException):
+    """a single case ran far too long (BaseException: not swallowed)"""
+
+
+def _on_alarm(signum, frame):
+    raise CaseTimeout()
+
+
 def circ_worker(args):
-    base, start, count, length = args
+    import resource
+    import signal
+    base, start, count, length, budget = args
+    try:    # a runaway case must not take the machine down
+        resource.setrlimit(resource.RLIMIT_AS, (6 << 30, 6 << 30))
+    except (ValueError, OSError):
+        pass
+    # CPU-time budget per case (ITIMER_PROF): immune to a loaded machine
+    signal.signal(signal.SIGPROF, _on_alarm)
     alpha = circ_sim.Alphabet()
     wl = whitelist()
     out = []
     for i in range(start, start + count):
         seed = circ_sim.seed_of(base, i)
+        signal.setitimer(signal.ITIMER_PROF, budget)
         try:
             sim = circ_sim.run_history(alpha, seed, length)
             if sim.internal_error:
@@ -277,9 +315,13 @@ def circ_worker(args):
             rec.update(i=i, seed=seed, calls=sim.calls[-30:],
                        nblocks=count_blocks(rec['ct']))
             out.append(rec)
+        except (CaseTimeout, MemoryError, RecursionError) as e:
+            out.append({'i': i, 'seed': seed, 'timeout': type(e).__name__})
         except Exception as e:
             out.append({'i': i, 'seed': seed, 'harness_error':
                         repr(e) + traceback.format_exc()[-1500:]})
+        finally:
+            signal.setitimer(signal.ITIMER_PROF, 0)
     return out
 
 
@@ -287,7 +329,7 @@ def part_circuits(ck: Check, n_hist: int, length: int):
     base = ck.seed * 7919 + 16
     nproc = min(8, max(1, n_hist // 20))
     chunk = max(1, (n_hist + nproc * 3 - 1) // (nproc * 3))
-    jobs = [(base, s, min(chunk, n_hist - s), length)
+    jobs = [(base, s, min(chunk, n_hist - s), length, 25)
             for s in range(0, n_hist, chunk)]
     if nproc > 1:
         with mp.Pool(nproc) as pool:
@@ -297,8 +339,24 @@ def part_circuits(ck: Check, n_hist: int, length: int):
     recs = [r for ch in res for r in ch]
     for r in recs:
         if 'harness_error' in r:
-            raise RuntimeError('harness failure: ' + r['harness_error'])
-    recs = [r for r in recs if 'skip' not in r]
+            # never seen on the unchanged tree: some public call raised in the
+            # middle of the pickle/copy/become comparisons
+            ck.violation(
+                'circuit-case-raises:' + r['harness_error'].split('(')[0],
+                'history ' + str(r['seed']) + ': a public call raised while '
+                'the circuit, its pickle image and its copies were compared: '
+                + r['harness_error'][:600], {'history_seed': r['seed']},
+                found_input=False)
+    for r in recs:
+        if 'timeout' in r:
+            ck.violation(
+                'circuit-case-' + r['timeout'], 'history ' + str(r['seed'])
+                + ' with its pickle/copy/become checks did not finish within '
+                '25 CPU-seconds or exhausted memory (' + r['timeout'] + '): copy()/'
+                'become()/pickle left a circuit on which public calls do not '
+                'terminate', {'history_seed': r['seed']}, found_input=False)
+    recs = [r for r in recs if 'skip' not in r and 'timeout' not in r
+            and 'harness_error' not in r]
     outs = ck.driver('pickle', ['reduce ' + r['ct'] for r in recs])
     for r, out in zip(recs, outs):
         ck.count(('circuit', r['ct']), nontrivial=r['ct'].count(';') > 6)
@@ -330,7 +388,8 @@ def part_circuits(ck: Check, n_hist: int, length: int):
                 'operation once) fails in the model for ' + r['ct'],
                 {**replay, 'broken': 'hypothesis iterOkB c c.iterKahn'},
                 found_input=False)
-        if r['payload'] is not None and parts[0] != r['payload']:
+        if r['payload'] is not None and canon_groups(parts[0]) != \
+                canon_groups(r['payload']):
             ck.violation(
                 'payload-correspondence', '__reduce__ payload differs from '
                 'the model: ' + r['payload'] + ' vs ' + parts[0],
@@ -452,9 +511,12 @@ def gate_case(lbl, thunk, rng, wl):
                 unitary_of(c, 128), unitary_of(pc, 128)):
             P.append((f'circuit-pickle-gate-unitary:{cls}', lbl))
         cc = c.copy()
-        if not (cc == c) or shared_mutables(c, cc, wl):
-            P.append((f'circuit-copy-gate:{cls}', f'{lbl}: copy differs or '
-                      'shares state'))
+        sh = shared_mutables(c, cc, wl)
+        if sh:
+            P.append(('circuit-copy-shares', f'{lbl}: copy() of a circuit '
+                      'holding the gate shares mutable objects: ' + sh[0]))
+        if not (cc == c):
+            P.append((f'circuit-copy-gate:{cls}', f'{lbl}: copy differs'))
         if not isinstance(g, CircuitGate):
             blk = Circuit(g.num_qudits + 1, rad + [2])
             blk.append_circuit(c, list(range(c.num_qudits)), True)
@@ -1391,7 +1453,53 @@ def part_witnesses(ck: Check):
 
 # ======================================================================== run
 def run(ck: Check):
+    from harness.common import InfraError
+    try:
+        _run(ck)
+    except CaseTimeout:
+        raise InfraError('C16 exceeded its overall time budget')
+
+
+def replay(ck: Check, path: str):
+    """./check C16 --replay replays/C16/<h>.json : re-run the recorded case."""
+    import json
+    body = json.loads(open(path).read())
+    rp = body.get('replay', {})
+    print(f'replaying {body.get("signature")}: {body.get("what", "")[:200]}')
+    if 'history_seed' in rp:
+        alpha = circ_sim.Alphabet()
+        sim = circ_sim.run_history(alpha, rp['history_seed'], 18)
+        rec = circuit_case(sim, sim.final,
+                           random.Random(rp['history_seed'] ^ 0x5a5a),
+                           whitelist())
+        print('circuit', rec['ct'])
+        for sig, what in rec['problems']:
+            ck.violation(sig, what, rp)
+        out = ck.driver('pickle', ['reduce ' + rec['ct']])[0]
+        print('model  ', out[:400])
+        print('payload', (rec['payload'] or '')[:400])
+    elif 'construction' in rp:
+        from harness import c16_gates
+        cat, _ = c16_gates.catalogue(ck.rng)
+        for lbl, thunk in cat:
+            if lbl == rp['construction']:
+                for sig, what in gate_case(lbl, thunk, ck.rng, whitelist()):
+                    ck.violation(sig, what, rp)
+    elif 'line' in rp:
+        print('model:', ck.driver('pickle', [rp['line']])[0])
+        print('impl :', rp.get('impl'))
+    else:
+        part_witnesses(ck)
+        part_objects(ck, 24)
+
+
+def _run(ck: Check):
+    import signal
     from translate import fields
+    if ck.replay_path:
+        return replay(ck, ck.replay_path)
+    signal.signal(signal.SIGALRM, _on_alarm)
+    signal.alarm(3000 if ck.tier == 'thorough' else 900)   # -> exit 2
     fields.main()
     proved = ck.lean_obligations()
     thorough = ck.tier == 'thorough'
@@ -1419,6 +1527,7 @@ def run(ck: Check):
         'malformed payloads), PassData become/copy/update/setitem/getitem '
         'and update_error_mul are also replayed through the Lean model; a '
         'circuit counts as non-trivial with more than 6 operations')
+    signal.alarm(0)
     if not proved:
         ck.violation(
             'proof-obligation', 'Lean obligations of Props/C16 do not check '
